@@ -1,7 +1,7 @@
 (* C09 - Truncation removes only whole oldest chunks, within the requested bounds.
    Property theorems only; each is closed by a lemma of proofs/TruncateP.v.
-   Model: model/Truncate.v.  [incl] = the comparison of the BEFORE loop: true is the code's `MaxTs <= OldestTs`
-   ([code_incl]), false the proposed `<`.  A run maps the partitions [st] to one slot each (same positions):
+   Model: model/Truncate.v.  [incl] = the comparison of the BEFORE loop: true is `MaxTs <= OldestTs`
+   ([code_incl]; false = `<` since the fix, true = the `<=` the code had before).  A run maps the partitions [st] to one slot each (same positions):
    Kept p' (still there) or Dropped (deleteJournal succeeded), plus the report lines. *)
 From LR Require Import lib.Base model.Truncate proofs.TruncateP.
 Open Scope N_scope.
@@ -81,8 +81,14 @@ Print Assumptions C09_size_maxdb_refuted.
 
 (* ---- BEFORE ---- *)
 (* the property: a chunk is removed for BEFORE t only if all its events are older than t (MAXSIZE absent, MAXDBSIZE
-   not in effect, the time index's hull bounds the chunk's events).  False of the code ... *)
-Theorem C09_before_refuted : ~ before_statement code_incl.
+   not in effect, the time index's hull bounds the chunk's events).  True of the code as it is (`<`, since the fix of
+   partition.go:606; K runs the model with [code_incl], so a return to `<=` breaks the correspondence and the oracle) *)
+Theorem C09_before : before_statement code_incl.
+Proof. intros tp st W Hh NM Mx D i p s Hp Hs c Hc t Ht. exact (before_bound false tp st W Hh NM Mx D i p s Hp Hs c Hc t Ht). Qed.
+Print Assumptions C09_before.
+
+(* ... and false of the comparison the code had before the fix (`<=`): BEFORE 60 removed a chunk holding an event at 60 *)
+Theorem C09_before_inclusive_refuted : ~ before_statement true.
 Proof.
   intros H.
   specialize (H (mkTP false 0 0 60%Z no_db) [wit_part 0] (Forall_cons _ (wit_wf 0) (Forall_nil _))).
@@ -92,20 +98,15 @@ Proof.
                 (ch 3 100 2 [50; 60]%Z) ltac:(vm_compute; tauto) 60%Z ltac:(cbn; tauto)).
   cbn in H. lia.
 Qed.
-Print Assumptions C09_before_refuted.
+Print Assumptions C09_before_inclusive_refuted.
 
-(* ... which guarantees only "not newer than t" ... *)
-Theorem C09_before_partial : forall tp st, Forall wf_part st -> (forall p, In p st -> Forall hull_ok (p_chunks p)) ->
+(* ... which guaranteed only "not newer than t" *)
+Theorem C09_before_inclusive_partial : forall tp st, Forall wf_part st -> (forall p, In p st -> Forall hull_ok (p_chunks p)) ->
   no_maxdb tp st -> tp_max tp = 0 -> tp_dry tp = false ->
-  forall i p s, nth_error st i = Some p -> nth_error (fst (Truncate code_incl tp st)) i = Some s ->
+  forall i p s, nth_error st i = Some p -> nth_error (fst (Truncate true tp st)) i = Some s ->
   forall c, In c (removed p s) -> forall t, In t (c_ts c) -> (t <= tp_oldest tp)%Z.
 Proof. intros tp st W Hh NM Mx D i p s Hp Hs c Hc t Ht. exact (before_bound true tp st W Hh NM Mx D i p s Hp Hs c Hc t Ht). Qed.
-Print Assumptions C09_before_partial.
-
-(* ... and true of the model with the one-character repair `<` *)
-Theorem C09_before_fixed : before_statement false.
-Proof. intros tp st W Hh NM Mx D i p s Hp Hs c Hc t Ht. exact (before_bound false tp st W Hh NM Mx D i p s Hp Hs c Hc t Ht). Qed.
-Print Assumptions C09_before_fixed.
+Print Assumptions C09_before_inclusive_partial.
 
 (* ---- dropping a partition ---- *)
 (* a partition is dropped only in a real run, only when no chunk with data is left and nobody else holds it
@@ -127,15 +128,12 @@ Theorem C09_dryrun_partial : forall incl tp st, Forall wf_part st -> (forall p, 
 Proof. exact dryrun_report. Qed.
 Print Assumptions C09_dryrun_partial.
 
-(* ... and differ in the chunk count when it is: BEFORE takes the first chunk, MAXDBSIZE 0 then the partition *)
-Theorem C09_dryrun_refuted : ~ dryrun_statement code_incl.
-Proof.
-  intros H.
-  specialize (H (mkTP false 0 0 25%Z 0) [wit_part 0] (Forall_cons _ (wit_wf 0) (Forall_nil _))
-                ltac:(intros p [<-|[]]; reflexivity) eq_refl).
-  vm_compute in H. inversion H as [|x y l l' S F]. subst. destruct S as (_ & _ & _ & _ & _ & S & _). discriminate S.
-Qed.
-Print Assumptions C09_dryrun_refuted.
+(* (the dry run used to report n + all chunks for a partition that lost n chunks in the first phase and was then dropped
+   by MAXDBSIZE: truncateGlobally added len(cks) of the untouched list; repaired, and the model's [glob] follows) *)
+Example C09_dryrun_maxdb_witness :
+  Forall2 same_report (snd (Truncate code_incl (dry_of (mkTP false 0 0 25%Z 0)) [wit_part 0]))
+                      (snd (Truncate code_incl (mkTP false 0 0 25%Z 0) [wit_part 0])).
+Proof. vm_compute. repeat constructor. Qed.
 
 (* ---- readers ---- *)
 (* a forward reader standing at (id of chunk j, idx): if chunk j was removed (j < k) it continues at the first
